@@ -229,6 +229,11 @@ def main():
     import gen_c12_tables
     counts, miss = gen_c12_tables.generate(REPO)
     vals.update(counts)      # C12_TABLE_ITEMS
+    # C13: enums, match arms, select! order and configuration of the request-response protocol
+    # -> coq/gen/C13Tables.v (sibling script)
+    import gen_c13_tables
+    counts, miss = gen_c13_tables.generate(REPO)
+    vals.update(counts)      # C13_SELECT_ARMS, C13_ERROR_VARIANTS
     missing += list(miss)
     str_names = []
     for name, path, rx in STR_CONSTS:
